@@ -764,13 +764,50 @@ pub struct EnvGenCfg {
     pub w_new: u32,
     pub w_cancel: u32,
     pub w_modify: u32,
+    /// large-volume session (3%): resting orders of 2^28..2^30 units per order, per-side resting volume kept below 2^32,
+    /// and takers that are sized to trade completely against the opposite touch - so that an aggressor plus the volume
+    /// resting on its own side may exceed 2^32 and the traded volume accumulated over the session passes 2^32
+    pub large: bool,
 }
 
 impl EnvGenCfg {
     pub fn random(rng: &mut Sm, assets: usize) -> Self {
         let ticks: Vec<u32> = (0..assets).map(|_| rng.range(1, 10) as u32).collect();
         let center_k = (0..assets).map(|_| rng.range(20, 5000)).collect();
-        EnvGenCfg { ticks, center_k, half: rng.range(1, 6), max_invisible: 7, p_market: 0.12, w_new: 55, w_cancel: 20, w_modify: 25 }
+        EnvGenCfg { ticks, center_k, half: rng.range(1, 6), max_invisible: 7, p_market: 0.12, w_new: 55, w_cancel: 20, w_modify: 25, large: rng.chance(0.03) }
+    }
+
+    /// Batch of a large-volume session: per asset either a few non-crossing makers (own-side sums stay below 2^32) or
+    /// exactly one taker priced at the opposite touch with at most the touch volume, and nothing else for that asset.
+    fn large_batch<E: SimEnv>(&self, rng: &mut Sm, env: &E) -> Vec<Ins> {
+        let mut out = Vec::new();
+        for asset in 0..E::ASSETS {
+            let v = env.book(asset).views();
+            let tick = self.ticks[asset] as u64;
+            let c = self.center_k[asset].max(8);
+            let taker_side = if rng.chance(0.5) { Some(rng.chance(0.5)) } else { None };
+            if let Some(bid) = taker_side {
+                let (touch_price, touch_vol) = if bid { (v.bid_ask.1, v.ask_best.0) } else { (v.bid_ask.0, v.bid_best.0) };
+                if touch_vol > 0 {
+                    let vol = (rng.range(1 << 29, 3 << 30) as u32).min(touch_vol).max(1);
+                    out.push(Ins::New { asset, bid, vol, trader: rng.below(30) as u32, price: Some(touch_price) });
+                    continue;
+                }
+            }
+            let (mut bv, mut av) = (v.bid_vol as u64, v.ask_vol as u64);
+            for _ in 0..rng.range(1, 3) {
+                let bid = rng.chance(0.5);
+                let vol = rng.range(1 << 28, 1 << 30);
+                let side = if bid { &mut bv } else { &mut av };
+                if *side + vol >= (u32::MAX as u64) - 1 {
+                    continue;
+                }
+                *side += vol;
+                let k = if bid { c - rng.range(1, 3) } else { c + rng.range(1, 3) };
+                out.push(Ins::New { asset, bid, vol: vol as u32, trader: rng.below(30) as u32, price: Some((k * tick) as u32) });
+            }
+        }
+        out
     }
 
     pub fn price(&self, rng: &mut Sm, asset: usize) -> u32 {
@@ -783,6 +820,12 @@ impl EnvGenCfg {
     /// instructions refer to orders that will get the next ids, so cancel/modify can target orders
     /// created in the same batch (`next_ids` = current number of orders per asset).
     pub fn batch<E: SimEnv>(&self, rng: &mut Sm, env: &E, n: usize) -> Vec<Ins> {
+        if self.large {
+            // never more instructions than the caller allows (batch sizes stay within the step size)
+            let mut b = self.large_batch(rng, env);
+            b.truncate(n);
+            return b;
+        }
         let assets = E::ASSETS;
         let mut next_ids: Vec<usize> = (0..assets).map(|a| env.env_orders(a).len()).collect();
         let actives: Vec<Vec<usize>> = (0..assets).map(|a| env.env_orders(a).iter().filter(|o| o.status == ACTIVE).map(|o| o.id).collect()).collect();
